@@ -62,9 +62,9 @@ def supported (k : Kind) : Bool :=
 
 /-- a FITS-representable pixel region *object*: a pixel region of one of the eight classes
 that satisfies the invariants its constructor enforces (strictly positive sizes, inner < outer,
-as many x as y vertices, at least one).  Decidable. -/
+as many x as y vertices, at least one; the angular unit has a positive scale).  Decidable. -/
 def representable (r : Reg) : Bool :=
-  !r.sky &&
+  !r.sky && decide (0 < r.aunit.deg) &&
   match r.kind, r.xs, r.ys, r.params, r.angle with
   | .point, [_], [_], [], none => true
   | .circle, [_], [_], [rad], none => decide (0 < rad)
@@ -92,7 +92,8 @@ structure SameRegion (r o : Reg) : Prop where
   xs : o.xs = r.xs
   ys : o.ys = r.ys
   params : o.params = (asWritten r).params
-  angle : o.angle = (asWritten r).angle
+  /-- the rotation angle as a physical quantity (value × degrees per unit): the unit may change -/
+  angle : o.angle.map (· * o.aunit.deg) = (asWritten r).angle.map (· * r.aunit.deg)
   excl : o.incl.truthy = r.incl.truthy
   comp : ∀ c, r.comp = some c → o.comp = some c
 
@@ -195,14 +196,14 @@ theorem getCol_idx (v : Variant) (row : TRow) (c : Col) (i : Nat) (q : Num)
 
 /-- `parse_row` once the name is recognised, the columns are there, the values are fetched and
 the constructor accepts them. -/
-theorem parseRow_of (v : Variant) (hc : Bool) (row : TRow) (shape : Name) (incl1 : Bool) (kind : Kind)
+theorem parseRow_of (v : Variant) (hc : Bool) (au : AUnit) (row : TRow) (shape : Name) (incl1 : Bool) (kind : Kind)
     (refs : List ColRef) (xs ys rest : List ℚ) (region : Reg)
     (hs : readShape row.shape = .ok (some shape, incl1))
     (hl : shapeMap.lookup shape = some (kind, refs))
     (hp : refs.any (fun ref => !(stdCols hc).contains ref.col.name) = false)
     (hg : getShapeParams v shape row refs = .ok (xs, ys, rest))
-    (hcst : construct kind xs ys rest = .ok region) :
-    parseRow v (stdCols hc) row = .ok (some (setMeta v (stdCols hc) incl1 row.component region)) := by
+    (hcst : construct au kind xs ys rest = .ok region) :
+    parseRow v (stdCols hc) au row = .ok (some (setMeta v (stdCols hc) incl1 row.component region)) := by
   have h1 : (stdCols hc).contains cSHAPE = true := by cases hc <;> decide
   simp only [parseRow, getShape, h1, Bool.not_true, Bool.false_eq_true, if_false, hs, bind, Except.bind,
     hl, hp, hg, hcst, pure, Except.pure]
@@ -236,7 +237,7 @@ theorem getShapeParams_corners (v : Variant) (shape : Name) (row : TRow) (refs :
   · rfl
 
 section readers
-variable (v : Variant) (hc : Bool) (row : TRow) (incl1 : Bool)
+variable (v : Variant) (hc : Bool) (au : AUnit) (row : TRow) (incl1 : Bool)
 
 theorem stdCols_numeric (hc : Bool) (c : Col) : (stdCols hc).contains c.name = true := by
   cases hc <;> cases c <;> decide
@@ -251,9 +252,9 @@ private theorem present (refs : List ColRef) :
 theorem read_point (x y : ℚ)
     (hs : readShape row.shape = .ok (some "point".toList, incl1))
     (hx : row.x.atleast1d[0]? = some (some x)) (hy : row.y.atleast1d[0]? = some (some y)) :
-    parseRow v (stdCols hc) row = .ok (some (setMeta v (stdCols hc) incl1 row.component
-      ⟨.point, false, [x], [y], [], none, .absent, none⟩)) := by
-  refine parseRow_of v hc row "point".toList incl1 .point [⟨.X, some 0⟩, ⟨.Y, some 0⟩] [x] [y] [] _ hs (by decide)
+    parseRow v (stdCols hc) au row = .ok (some (setMeta v (stdCols hc) incl1 row.component
+      ⟨.point, false, [x], [y], [], none, .absent, none, AUnit.degree⟩)) := by
+  refine parseRow_of v hc au row "point".toList incl1 .point [⟨.X, some 0⟩, ⟨.Y, some 0⟩] [x] [y] [] _ hs (by decide)
     (present hc _) ?_ ?_
   · have := getShapeParams_plain v "point".toList row [⟨.X, some 0⟩, ⟨.Y, some 0⟩] [some x] [some y] [] [x] [y] []
       (by decide)
@@ -268,9 +269,9 @@ theorem read_circle (x y rad : ℚ)
     (hs : readShape row.shape = .ok (some "circle".toList, incl1))
     (hx : row.x.atleast1d[0]? = some (some x)) (hy : row.y.atleast1d[0]? = some (some y))
     (hr : row.r.atleast1d[0]? = some (some rad)) (hpos : 0 < rad) :
-    parseRow v (stdCols hc) row = .ok (some (setMeta v (stdCols hc) incl1 row.component
-      ⟨.circle, false, [x], [y], [rad], none, .absent, none⟩)) := by
-  refine parseRow_of v hc row "circle".toList incl1 .circle [⟨.X, some 0⟩, ⟨.Y, some 0⟩, ⟨.R, some 0⟩] [x] [y] [rad] _ hs
+    parseRow v (stdCols hc) au row = .ok (some (setMeta v (stdCols hc) incl1 row.component
+      ⟨.circle, false, [x], [y], [rad], none, .absent, none, AUnit.degree⟩)) := by
+  refine parseRow_of v hc au row "circle".toList incl1 .circle [⟨.X, some 0⟩, ⟨.Y, some 0⟩, ⟨.R, some 0⟩] [x] [y] [rad] _ hs
     (by decide) (present hc _) ?_ ?_
   · have := getShapeParams_plain v "circle".toList row [⟨.X, some 0⟩, ⟨.Y, some 0⟩, ⟨.R, some 0⟩]
       [some x] [some y] [[some rad]] [x] [y] [rad] (by decide)
@@ -287,9 +288,9 @@ theorem read_ellipse (x y a b t : ℚ)
     (hx : row.x.atleast1d[0]? = some (some x)) (hy : row.y.atleast1d[0]? = some (some y))
     (hr0 : row.r.atleast1d[0]? = some (some a)) (hr1 : row.r.atleast1d[1]? = some (some b))
     (ht : row.rotang.atleast1d[0]? = some (some t)) (ha : 0 < a) (hb : 0 < b) :
-    parseRow v (stdCols hc) row = .ok (some (setMeta v (stdCols hc) incl1 row.component
-      ⟨.ellipse, false, [x], [y], [a * 2, b * 2], some t, .absent, none⟩)) := by
-  refine parseRow_of v hc row "ellipse".toList incl1 .ellipse
+    parseRow v (stdCols hc) au row = .ok (some (setMeta v (stdCols hc) incl1 row.component
+      ⟨.ellipse, false, [x], [y], [a * 2, b * 2], some t, .absent, none, au⟩)) := by
+  refine parseRow_of v hc au row "ellipse".toList incl1 .ellipse
     [⟨.X, some 0⟩, ⟨.Y, some 0⟩, ⟨.R, some 0⟩, ⟨.R, some 1⟩, ⟨.ROTANG, some 0⟩] [x] [y] [a * 2, b * 2, t] _ hs
     (by decide) (present hc _) ?_ ?_
   · have := getShapeParams_plain v "ellipse".toList row
@@ -311,9 +312,9 @@ theorem read_annulus (x y ri ro : ℚ)
     (hx : row.x.atleast1d[0]? = some (some x)) (hy : row.y.atleast1d[0]? = some (some y))
     (hr0 : row.r.atleast1d[0]? = some (some ri)) (hr1 : row.r.atleast1d[1]? = some (some ro))
     (h0 : 0 < ri) (h1 : ri < ro) :
-    parseRow v (stdCols hc) row = .ok (some (setMeta v (stdCols hc) incl1 row.component
-      ⟨.circleAnnulus, false, [x], [y], [ri, ro], none, .absent, none⟩)) := by
-  refine parseRow_of v hc row "annulus".toList incl1 .circleAnnulus
+    parseRow v (stdCols hc) au row = .ok (some (setMeta v (stdCols hc) incl1 row.component
+      ⟨.circleAnnulus, false, [x], [y], [ri, ro], none, .absent, none, AUnit.degree⟩)) := by
+  refine parseRow_of v hc au row "annulus".toList incl1 .circleAnnulus
     [⟨.X, some 0⟩, ⟨.Y, some 0⟩, ⟨.R, some 0⟩, ⟨.R, some 1⟩] [x] [y] [ri, ro] _ hs
     (by decide) (present hc _) ?_ ?_
   · have := getShapeParams_plain v "annulus".toList row
@@ -336,9 +337,9 @@ theorem read_elliptannulus (x y iw ow ih oh t : ℚ)
     (hr2 : row.r.atleast1d[2]? = some (some ih)) (hr3 : row.r.atleast1d[3]? = some (some oh))
     (ht : row.rotang.atleast1d[0]? = some (some t))
     (h0 : 0 < iw) (h1 : iw < ow) (h2 : 0 < ih) (h3 : ih < oh) :
-    parseRow v (stdCols hc) row = .ok (some (setMeta v (stdCols hc) incl1 row.component
-      ⟨.ellipseAnnulus, false, [x], [y], [iw, ow, ih, oh], some t, .absent, none⟩)) := by
-  refine parseRow_of v hc row "elliptannulus".toList incl1 .ellipseAnnulus
+    parseRow v (stdCols hc) au row = .ok (some (setMeta v (stdCols hc) incl1 row.component
+      ⟨.ellipseAnnulus, false, [x], [y], [iw, ow, ih, oh], some t, .absent, none, au⟩)) := by
+  refine parseRow_of v hc au row "elliptannulus".toList incl1 .ellipseAnnulus
     [⟨.X, some 0⟩, ⟨.Y, some 0⟩, ⟨.R, some 0⟩, ⟨.R, some 1⟩, ⟨.R, some 2⟩, ⟨.R, some 3⟩, ⟨.ROTANG, some 0⟩]
     [x] [y] [iw, ow, ih, oh, t] _ hs (by decide) (present hc _) ?_ ?_
   · have := getShapeParams_plain v "elliptannulus".toList row
@@ -360,9 +361,9 @@ theorem read_box (x y w h : ℚ)
     (hx : row.x.atleast1d[0]? = some (some x)) (hy : row.y.atleast1d[0]? = some (some y))
     (hr0 : row.r.atleast1d[0]? = some (some w)) (hr1 : row.r.atleast1d[1]? = some (some h))
     (hw : 0 < w) (hh : 0 < h) :
-    parseRow v (stdCols hc) row = .ok (some (setMeta v (stdCols hc) incl1 row.component
-      ⟨.rectangle, false, [x], [y], [w, h], some 0, .absent, none⟩)) := by
-  refine parseRow_of v hc row "box".toList incl1 .rectangle
+    parseRow v (stdCols hc) au row = .ok (some (setMeta v (stdCols hc) incl1 row.component
+      ⟨.rectangle, false, [x], [y], [w, h], some 0, .absent, none, AUnit.degree⟩)) := by
+  refine parseRow_of v hc au row "box".toList incl1 .rectangle
     [⟨.X, some 0⟩, ⟨.Y, some 0⟩, ⟨.R, some 0⟩, ⟨.R, some 1⟩] [x] [y] [w, h] _ hs
     (by decide) (present hc _) ?_ ?_
   · have := getShapeParams_plain v "box".toList row
@@ -382,9 +383,9 @@ theorem read_rotbox (x y w h t : ℚ)
     (hx : row.x.atleast1d[0]? = some (some x)) (hy : row.y.atleast1d[0]? = some (some y))
     (hr0 : row.r.atleast1d[0]? = some (some w)) (hr1 : row.r.atleast1d[1]? = some (some h))
     (ht : row.rotang.atleast1d[0]? = some (some t)) (hw : 0 < w) (hh : 0 < h) :
-    parseRow v (stdCols hc) row = .ok (some (setMeta v (stdCols hc) incl1 row.component
-      ⟨.rectangle, false, [x], [y], [w, h], some t, .absent, none⟩)) := by
-  refine parseRow_of v hc row "rotbox".toList incl1 .rectangle
+    parseRow v (stdCols hc) au row = .ok (some (setMeta v (stdCols hc) incl1 row.component
+      ⟨.rectangle, false, [x], [y], [w, h], some t, .absent, none, au⟩)) := by
+  refine parseRow_of v hc au row "rotbox".toList incl1 .rectangle
     [⟨.X, some 0⟩, ⟨.Y, some 0⟩, ⟨.R, some 0⟩, ⟨.R, some 1⟩, ⟨.ROTANG, some 0⟩] [x] [y] [w, h, t] _ hs
     (by decide) (present hc _) ?_ ?_
   · have := getShapeParams_plain v "rotbox".toList row
@@ -406,10 +407,10 @@ theorem read_rectangle (x0 x1 y0 y1 : ℚ)
     (hx0 : row.x.atleast1d[0]? = some (some x0)) (hx1 : row.x.atleast1d[1]? = some (some x1))
     (hy0 : row.y.atleast1d[0]? = some (some y0)) (hy1 : row.y.atleast1d[1]? = some (some y1))
     (hw : x0 < x1) (hh : y0 < y1) :
-    parseRow v (stdCols hc) row = .ok (some (setMeta v (stdCols hc) incl1 row.component
+    parseRow v (stdCols hc) au row = .ok (some (setMeta v (stdCols hc) incl1 row.component
       ⟨.rectangle, false, [1 / 2 * (x0 + x1)], [1 / 2 * (y0 + y1)], [x1 - x0, y1 - y0], some 0,
-       .absent, none⟩)) := by
-  refine parseRow_of v hc row "rectangle".toList incl1 .rectangle
+       .absent, none, AUnit.degree⟩)) := by
+  refine parseRow_of v hc au row "rectangle".toList incl1 .rectangle
     [⟨.X, some 0⟩, ⟨.X, some 1⟩, ⟨.Y, some 0⟩, ⟨.Y, some 1⟩] [1 / 2 * (x0 + x1)] [1 / 2 * (y0 + y1)]
     [x1 - x0, y1 - y0] _ hs
     (by decide) (present hc _) ?_ ?_
@@ -428,10 +429,10 @@ theorem read_rotrectangle (x0 x1 y0 y1 t : ℚ)
     (hx0 : row.x.atleast1d[0]? = some (some x0)) (hx1 : row.x.atleast1d[1]? = some (some x1))
     (hy0 : row.y.atleast1d[0]? = some (some y0)) (hy1 : row.y.atleast1d[1]? = some (some y1))
     (ht : row.rotang.atleast1d[0]? = some (some t)) (hw : x0 < x1) (hh : y0 < y1) :
-    parseRow v (stdCols hc) row = .ok (some (setMeta v (stdCols hc) incl1 row.component
+    parseRow v (stdCols hc) au row = .ok (some (setMeta v (stdCols hc) incl1 row.component
       ⟨.rectangle, false, [1 / 2 * (x0 + x1)], [1 / 2 * (y0 + y1)], [x1 - x0, y1 - y0], some t,
-       .absent, none⟩)) := by
-  refine parseRow_of v hc row "rotrectangle".toList incl1 .rectangle
+       .absent, none, au⟩)) := by
+  refine parseRow_of v hc au row "rotrectangle".toList incl1 .rectangle
     [⟨.X, some 0⟩, ⟨.X, some 1⟩, ⟨.Y, some 0⟩, ⟨.Y, some 1⟩, ⟨.ROTANG, some 0⟩] [1 / 2 * (x0 + x1)]
     [1 / 2 * (y0 + y1)] [x1 - x0, y1 - y0, t] _ hs
     (by decide) (present hc _) ?_ ?_
@@ -453,9 +454,9 @@ theorem read_polygon (xs ys : List ℚ)
     (hx : nums (if v.f10 then row.x.atleast1d.filter Option.isSome else row.x.atleast1d) = .ok xs)
     (hy : nums (if v.f10 then row.y.atleast1d.filter Option.isSome else row.y.atleast1d) = .ok ys)
     (hlen : xs.length = ys.length) :
-    parseRow v (stdCols hc) row = .ok (some (setMeta v (stdCols hc) incl1 row.component
-      ⟨.polygon, false, xs, ys, [], none, .absent, none⟩)) := by
-  refine parseRow_of v hc row "polygon".toList incl1 .polygon [⟨.X, none⟩, ⟨.Y, none⟩] xs ys [] _ hs
+    parseRow v (stdCols hc) au row = .ok (some (setMeta v (stdCols hc) incl1 row.component
+      ⟨.polygon, false, xs, ys, [], none, .absent, none, AUnit.degree⟩)) := by
+  refine parseRow_of v hc au row "polygon".toList incl1 .polygon [⟨.X, none⟩, ⟨.Y, none⟩] xs ys [] _ hs
     (by decide) (present hc _) ?_ ?_
   · have := getShapeParams_plain v "polygon".toList row [⟨.X, none⟩, ⟨.Y, none⟩] _ _ [] xs ys [] (by decide)
       (by simp only [List.mapM_cons, List.mapM_nil, getColumnValues, TRow.cell, bind, Except.bind, pure,
@@ -568,7 +569,7 @@ theorem row_roundtrip_supported (v : Variant) (hc : Bool) (r : Reg) (hr : repres
   · -- ellipse
     rename_i x y w h t
     simp only [Bool.and_eq_true, decide_eq_true_eq] at hr
-    have := read_ellipse v hc (mkRow v wx wy wr wa (dataOf ⟨.ellipse, false, [x], [y], [w, h], some t, incl, comp⟩) c)
+    have := read_ellipse v hc (mkRow v wx wy wr wa (dataOf ⟨.ellipse, false, [x], [y], [w, h], some t, incl, comp, AUnit.degree⟩) c)
       (!incl.eqZero) x y (w / 2) (h / 2) t hsh (padCell_get _ wx [x] hwx 0 (by simp))
       (padCell_get _ wy [y] hwy 0 (by simp)) (padCell_get _ wr [w / 2, h / 2] hwr 0 (by simp))
       (padCell_get _ wr [w / 2, h / 2] hwr 1 (by simp)) (padCell_get _ wa [t] hwa 0 (by simp))
@@ -1459,10 +1460,10 @@ theorem corner_form_agrees (v : Variant) (hc : Bool) (rowC rowB : TRow) (incl1 :
     (htC : rowC.rotang.atleast1d[0]? = some (some t)) (htB : rowB.rotang.atleast1d[0]? = some (some t)) :
     (readShape rowC.shape = .ok (some "rectangle".toList, incl1) →
      readShape rowB.shape = .ok (some "box".toList, incl1) →
-       parseRow v (stdCols hc) rowC = parseRow v (stdCols hc) rowB) ∧
+       parseRow v (stdCols hc) au rowC = parseRow v (stdCols hc) au rowB) ∧
     (readShape rowC.shape = .ok (some "rotrectangle".toList, incl1) →
      readShape rowB.shape = .ok (some "rotbox".toList, incl1) →
-       parseRow v (stdCols hc) rowC = parseRow v (stdCols hc) rowB) := by
+       parseRow v (stdCols hc) au rowC = parseRow v (stdCols hc) au rowB) := by
   constructor
   · intro hC hB
     rw [read_rectangle v hc rowC incl1 x0 x1 y0 y1 hC hx0 hx1 hy0 hy1 hw hh,
@@ -1479,7 +1480,7 @@ example :
     readShape row.shape = .ok (some "rotrectangle".toList, false) ∧
     row.x.atleast1d[1]? = some (some 4) ∧ (1 : ℚ) < 4 ∧
     parseRow Variant.fixed (stdCols true) row =
-      .ok (some ⟨.rectangle, false, [5 / 2], [5], [3, 6], some 30, .int 0, some 7⟩) := by
+      .ok (some ⟨.rectangle, false, [5 / 2], [5], [3, 6], some 30, .int 0, some 7, AUnit.degree⟩) := by
   decide +kernel
 
 /-! ## §7 the property at full strength, the findings, the partial theorems -/
@@ -1508,16 +1509,16 @@ def FixedPoint (v : Variant) : Prop :=
     parseTable v (serialize v regs) = .ok regs
 
 /-- the F8 witness: one excluded ellipse. -/
-def wF8 : List Reg := [⟨.ellipse, false, [1], [2], [4, 2], some 30, .int 0, none⟩]
+def wF8 : List Reg := [⟨.ellipse, false, [1], [2], [4, 2], some 30, .int 0, none, AUnit.degree⟩]
 /-- the F9 witness: one excluded circle that carries a component. -/
-def wF9 : List Reg := [⟨.circle, false, [1], [2], [3], none, .bool false, some 5⟩]
+def wF9 : List Reg := [⟨.circle, false, [1], [2], [3], none, .bool false, some 5, AUnit.degree⟩]
 /-- the F10 witness: a triangle next to a quadrilateral. -/
 def wF10 : List Reg :=
-  [⟨.polygon, false, [1, 2, 3], [4, 5, 7], [], none, .absent, none⟩,
-   ⟨.polygon, false, [1, 2, 3, 4], [4, 5, 7, 1], [], none, .absent, none⟩]
+  [⟨.polygon, false, [1, 2, 3], [4, 5, 7], [], none, .absent, none, AUnit.degree⟩,
+   ⟨.polygon, false, [1, 2, 3, 4], [4, 5, 7, 1], [], none, .absent, none, AUnit.degree⟩]
 /-- the F121 witness: two points, one with a component. -/
 def wF121 : List Reg :=
-  [⟨.point, false, [1], [2], [], none, .absent, some 3⟩, ⟨.point, false, [1], [2], [], none, .absent, none⟩]
+  [⟨.point, false, [1], [2], [], none, .absent, some 3, AUnit.degree⟩, ⟨.point, false, [1], [2], [], none, .absent, none, AUnit.degree⟩]
 /-- the F8 fixed-point witness: a table with one `!ellipse` row. -/
 def tF8 : Table :=
   ⟨stdCols false, [⟨"!ellipse".toList, .scalar (some 1), .scalar (some 2), .vec [some 2, some 1],
@@ -1529,7 +1530,7 @@ theorem not_roundtrip_of_F8 (f9 f10 f121 : Bool) : ¬ RoundTrip ⟨false, f9, f1
   intro h
   obtain ⟨out, hp, hs, -⟩ := h wF8 (by decide +kernel)
   have e : parseTable ⟨false, f9, f10, f121⟩ (serialize ⟨false, f9, f10, f121⟩ wF8) =
-      .ok [⟨.ellipse, false, [1], [2], [8, 4], some 30, .int 0, none⟩] := by
+      .ok [⟨.ellipse, false, [1], [2], [8, 4], some 30, .int 0, none, AUnit.degree⟩] := by
     cases f9 <;> cases f10 <;> cases f121 <;> decide +kernel
   rw [e] at hp
   cases hp
@@ -1542,7 +1543,7 @@ theorem not_roundtrip_of_F9 (f8 f10 f121 : Bool) : ¬ RoundTrip ⟨f8, false, f1
   intro h
   obtain ⟨out, hp, hs, -⟩ := h wF9 (by decide +kernel)
   have e : parseTable ⟨f8, false, f10, f121⟩ (serialize ⟨f8, false, f10, f121⟩ wF9) =
-      .ok [⟨.circle, false, [1], [2], [3], none, .absent, some 5⟩] := by
+      .ok [⟨.circle, false, [1], [2], [3], none, .absent, some 5, AUnit.degree⟩] := by
     cases f8 <;> cases f10 <;> cases f121 <;> decide +kernel
   rw [e] at hp
   cases hp
@@ -1555,8 +1556,8 @@ theorem not_roundtrip_of_F10 (f8 f9 f121 : Bool) : ¬ RoundTrip ⟨f8, f9, false
   intro h
   obtain ⟨out, hp, hs, -⟩ := h wF10 (by decide +kernel)
   have e : parseTable ⟨f8, f9, false, f121⟩ (serialize ⟨f8, f9, false, f121⟩ wF10) =
-      .ok [⟨.polygon, false, [1, 2, 3, 0], [4, 5, 7, 0], [], none, .absent, none⟩,
-           ⟨.polygon, false, [1, 2, 3, 4], [4, 5, 7, 1], [], none, .absent, none⟩] := by
+      .ok [⟨.polygon, false, [1, 2, 3, 0], [4, 5, 7, 0], [], none, .absent, none, AUnit.degree⟩,
+           ⟨.polygon, false, [1, 2, 3, 4], [4, 5, 7, 1], [], none, .absent, none, AUnit.degree⟩] := by
     cases f8 <;> cases f9 <;> cases f121 <;> decide +kernel
   rw [e] at hp
   cases hp
@@ -1577,12 +1578,12 @@ theorem not_fileRoundtrip_of_F121 (f8 f9 f10 : Bool) : ¬ FileRoundTrip ⟨f8, f
 theorem not_fixedPoint_of_F8 (f9 f10 f121 : Bool) : ¬ FixedPoint ⟨false, f9, f10, f121⟩ := by
   intro h
   have e1 : parseTable ⟨false, f9, f10, f121⟩ tF8 =
-      .ok [⟨.ellipse, false, [1], [2], [4, 2], some 30, .int 0, none⟩] := by
+      .ok [⟨.ellipse, false, [1], [2], [4, 2], some 30, .int 0, none, AUnit.degree⟩] := by
     cases f9 <;> cases f10 <;> cases f121 <;> decide +kernel
   have h2 := h tF8 _ e1 ⟨by decide +kernel, by cases f9 <;> cases f10 <;> cases f121 <;> decide +kernel⟩
   have e2 : parseTable ⟨false, f9, f10, f121⟩ (serialize ⟨false, f9, f10, f121⟩
-      [⟨.ellipse, false, [1], [2], [4, 2], some 30, .int 0, none⟩]) =
-      .ok [⟨.ellipse, false, [1], [2], [8, 4], some 30, .int 0, none⟩] := by
+      [⟨.ellipse, false, [1], [2], [4, 2], some 30, .int 0, none, AUnit.degree⟩]) =
+      .ok [⟨.ellipse, false, [1], [2], [8, 4], some 30, .int 0, none, AUnit.degree⟩] := by
     cases f9 <;> cases f10 <;> cases f121 <;> decide +kernel
   rw [e2] at h2
   exact absurd h2 (by decide +kernel)
@@ -2002,13 +2003,13 @@ theorem fits_roundtrip_partial (regs : List Reg) (hrep : ∀ r ∈ regs, represe
 renamed/halved classes (the F8 class), an excluded region next to given components (the F9 class),
 components partially present (the F121 class), two polygons of equal length. -/
 def sampleList : List Reg :=
-  [⟨.circle, false, [1], [2], [3], none, .bool false, some 7⟩,
-   ⟨.ellipse, false, [5 / 2], [-4], [4, 2], some 30, .int 0, none⟩,
-   ⟨.ellipseAnnulus, false, [0], [0], [1, 2, 3, 4], some 45, .bool false, none⟩,
-   ⟨.circleAnnulus, false, [0], [0], [1, 2], none, .int 0, some 2⟩,
-   ⟨.polygon, false, [1, 2, 3], [4, 5, 15 / 2], [], none, .int 0, none⟩,
-   ⟨.regularPolygon, false, [0, 1, 2], [3, 1, 3], [], none, .absent, none⟩,
-   ⟨.rectangle, false, [7], [8], [2, 1], some 90, .int 0, none⟩]
+  [⟨.circle, false, [1], [2], [3], none, .bool false, some 7, AUnit.degree⟩,
+   ⟨.ellipse, false, [5 / 2], [-4], [4, 2], some 30, .int 0, none, AUnit.degree⟩,
+   ⟨.ellipseAnnulus, false, [0], [0], [1, 2, 3, 4], some 45, .bool false, none, AUnit.degree⟩,
+   ⟨.circleAnnulus, false, [0], [0], [1, 2], none, .int 0, some 2, AUnit.degree⟩,
+   ⟨.polygon, false, [1, 2, 3], [4, 5, 15 / 2], [], none, .int 0, none, AUnit.degree⟩,
+   ⟨.regularPolygon, false, [0, 1, 2], [3, 1, 3], [], none, .absent, none, AUnit.degree⟩,
+   ⟨.rectangle, false, [7], [8], [2, 1], some 90, .int 0, none, AUnit.degree⟩]
 
 example : (∀ r ∈ sampleList, representable r = true) ∧ NoShortPolygon sampleList := by decide +kernel
 
@@ -2065,10 +2066,10 @@ example :
     Rectangular t ∧ ∃ regs, parseTable Variant.current t = .ok regs ∧ regs.length = 4 ∧
       ReadFromRealTable Variant.current regs := by
   refine ⟨⟨2, 2, by decide, by decide, by decide +kernel⟩,
-    [⟨.rectangle, false, [5 / 2], [5], [3, 6], some 0, .absent, none⟩,
-     ⟨.ellipse, false, [3], [3], [4, 2], some 30, .int 0, none⟩,
-     ⟨.rectangle, false, [3], [3], [2, 1], some 0, .int 0, none⟩,
-     ⟨.polygon, false, [1, 4], [2, 8], [], none, .absent, none⟩],
+    [⟨.rectangle, false, [5 / 2], [5], [3, 6], some 0, .absent, none, AUnit.degree⟩,
+     ⟨.ellipse, false, [3], [3], [4, 2], some 30, .int 0, none, AUnit.degree⟩,
+     ⟨.rectangle, false, [3], [3], [2, 1], some 0, .int 0, none, AUnit.degree⟩,
+     ⟨.polygon, false, [1, 4], [2, 8], [], none, .absent, none, AUnit.degree⟩],
     by decide +kernel, by decide +kernel, ⟨by decide +kernel, by decide +kernel⟩⟩
 
 theorem fits_fixed_point_fixed : FixedPoint Variant.fixed := (fixedPoint_iff Variant.fixed).mpr rfl
